@@ -22,7 +22,7 @@ func c13Truncated(dec config.DecoderType) {
 		good = "1 /a tag1\nx\n"
 		last = string(rune('0'+size)) + " /b tag2"
 	} else {
-		good = "5 tag1\nGET /\n"
+		good = "27 tag1\nGET / HTTP/1.1\r\nHost: h\r\n\r\n\n"
 		last = string(rune('0'+size)) + " tag2"
 	}
 	file := good + last
